@@ -710,6 +710,58 @@ func errorTypeTwins(run *core.Run, scratch string) {
 	})
 }
 
+// controllerTwinsCLI: two controllers with the same struct name in different packages, one of which only earns a
+// warning (no @Tag) while the other holds the project's only error (an ill-linked route), in both package orders and
+// with one to three such pairs per project. Whatever the entities are called, one error blocks all output.
+func controllerTwinsCLI(run *core.Run, scratch string) {
+	type variant struct {
+		name     string
+		errorIn  string // package of the controller with the ill-linked route
+		sameName bool
+	}
+	vs := []variant{{"same name, error in the later package", "zb", true}, {"same name, error in the earlier package", "za", true}, {"different names, error in the later package", "zb", false}}
+	for vi, v := range vs {
+		id := fmt.Sprintf("f%04d", vi)
+		mk := func(pkg string, ill bool) scen.Controller {
+			name := "Twin" + id
+			if !v.sameName {
+				name += pkg
+			}
+			m := scen.Method{Name: "Get" + pkg + id, Verb: "GET", Route: scen.S("/one/{id}"), Params: []scen.Param{{Name: "id", Type: "string", In: "Path"}}, Body: "\tpanic(\"never called\")\n"}
+			if ill {
+				m.Params = append(m.Params, scen.Param{Name: "h", Type: "[]string", In: "Header"}) // a slice outside the query: rule R4
+			}
+			c := scen.Controller{Name: name, Pkg: id + "/" + pkg, Prefix: scen.S("/" + id + "/" + pkg), Methods: []scen.Method{m}}
+			if ill {
+				c.Tag = scen.S("T" + id)
+			}
+			return c
+		}
+		u := scen.Unit{Controllers: []scen.Controller{mk("za", v.errorIn == "za"), mk("zb", v.errorIn == "zb")}}
+		rn := &scen.Runner{Scratch: scratch, BaseCfg: fam.DefaultCfg}
+		p := rn.BuildProject([]scen.Case{{ID: id, Unit: u}})
+		p.Files["dist/openapi.json"] = "STALE SPEC\n"
+		p.Files["dist/routes/gleece.routes.go"] = "// STALE ROUTES\n"
+		dir := filepath.Join(scratch, "twins-"+id)
+		if err := p.Write(dir); err != nil {
+			core.Harness("cannot write project: %v", err)
+		}
+		r := scen.RunCLI(dir, []string{"generate", "spec-and-routes", "-c", "./gleece.config.json"}, 120)
+		os.RemoveAll(dir)
+		run.AddValidated(1)
+		feat := map[string]string{"family": "controller-twins", "variant": v.name, "seam": "cli"}
+		cs := map[string]any{"id": id, "variant": v.name, "controllers": u.Controllers}
+		untouched := r.Files["dist/openapi.json"] == "STALE SPEC\n" && r.Files["dist/routes/gleece.routes.go"] == "// STALE ROUTES\n"
+		switch {
+		case r.Exit == 0:
+			run.Report(core.Violation{Oracle: "ill-linked-route-must-be-rejected", Features: feat, What: "a project with an ill-linked route (a []string header parameter) in one of two controllers exited 0 and wrote its artifacts", Case: cs})
+		case !untouched:
+			run.Report(core.Violation{Oracle: "failed-command-writes-nothing", Features: feat, What: "the command failed but modified an output file: " + lastLines(r.Output, 3), Case: cs})
+		}
+		run.Outcome("controller-twins: judged", 1)
+	}
+}
+
 // linkLevel: perturbations of annotations and template names other than re-kinding / re-targeting (those are
 // covered one at a time).
 func linkLevel(name string) bool {
@@ -786,6 +838,7 @@ func Main(tier, replay string) {
 	rn := fam.RunOpt(f, scratch, nil, packed, singles, true, check)
 	if replay == "" {
 		errorTypeTwins(run, scratch)
+		controllerTwinsCLI(run, scratch)
 	}
 	run.AddStates(int64(len(cases)))
 	run.AddTransitions(rn.Projects.Load())
